@@ -20,6 +20,8 @@
    sites) and, for route-parameter sites, of what the handler does without the router. *)
 From SigM Require Import Base Paths.
 From SigP Require Import BaseProofs PathsProofs.
+From SigG Require Import Gen.
+From SigP Require Import GenC19.
 Open Scope N_scope.
 
 (* ---------- filepath.Clean ---------- *)
@@ -275,3 +277,11 @@ Theorem C19_validator_satisfiable_and_rejects_witnesses :
    safe_component [97;92;98] = false /\ safe_component [97;0] = false).
 Proof. exact (conj validator_sat validator_rejects_witnesses). Qed.
 Print Assumptions C19_validator_satisfiable_and_rejects_witnesses.
+
+(* ==== the guard itself, REGENERATED from pkg/utils/fileutils.go on every run by gotrans (coq/gen/Gen.v) ====
+   utils.IsSafePathComponent, the check in front of every name-to-path site repaired in this work, is the model's
+   safe_component for every byte string (a Go string is its byte sequence; strings.ContainsAny over the ASCII set /, \, NUL). *)
+Theorem C19_code_IsSafePathComponent_is_model : forall name : list N,
+  gen_IsSafePathComponent (zbytes name) = safe_component name.
+Proof. exact gen_IsSafePathComponent_is_model. Qed.
+Print Assumptions C19_code_IsSafePathComponent_is_model.
